@@ -146,6 +146,14 @@ def evaluate(expr, env: dict, val: Dict[str, bool], atoms: Atoms, depth: int = 8
                         return None
                     r = val[name] if pol else (not val[name])
                     return not r
+    # partial evaluation under the valuation: intermediates such as `v = n.value if n else None` / `d.get(k, U)` are
+    # reduced with what the valuation says about their tests, then the reduced test is looked up again
+    if depth > 2 and not isinstance(expr, ast.IfExp):
+        red = simplify(expr, env, val, atoms)
+        if red is not None:
+            r = evaluate(red, {}, val, atoms, 2)
+            if r is not None:
+                return r
     if atoms.funcs:
         inl = inline(expr, env)
         txt = unparse(inl)
@@ -171,6 +179,81 @@ def evaluate(expr, env: dict, val: Dict[str, bool], atoms: Atoms, depth: int = 8
     if atoms.strict:
         raise AnalysisError(f"unmapped test: {canon(expr, env)!r}")
     return None
+
+
+def simplify(expr, env: dict, val: Dict[str, bool], atoms: Atoms):
+    """`expr` with local names inlined and every sub-expression the valuation decides reduced: conditional expressions take the
+    chosen branch, `isinstance(None, C)` is False, `d.get(k, default)` is `d[k]` / `default` when `k in d` is decided,
+    `x or {}` is `x` when x is decided true.  Returns None when nothing changed."""
+    import copy
+    inl = inline(expr, env)
+    before = unparse(inl)
+    quiet = Atoms({})
+    quiet.map, quiet.funcs = atoms.map, atoms.funcs
+
+    class R(ast.NodeTransformer):
+        def visit_Lambda(self, node):
+            return node
+
+        def visit_IfExp(self, node):
+            self.generic_visit(node)
+            c = evaluate(node.test, {}, val, quiet, 2)
+            if c is True:
+                return node.body
+            if c is False:
+                return node.orelse
+            return node
+
+        def visit_BoolOp(self, node):
+            self.generic_visit(node)
+            if isinstance(node.op, ast.Or) and len(node.values) == 2:
+                c = evaluate(node.values[0], {}, val, quiet, 2)
+                if c is True:
+                    return node.values[0]
+                if c is False:
+                    return node.values[1]
+            return node
+
+        def visit_Call(self, node):
+            self.generic_visit(node)
+            if isinstance(node.func, ast.Name) and node.func.id == "isinstance" and len(node.args) == 2 and isinstance(node.args[0], ast.Constant) and node.args[0].value is None:
+                return ast.Constant(value=False)
+            if isinstance(node.func, ast.Attribute) and node.func.attr == "get" and len(node.args) in (1, 2) and not node.keywords:
+                member = ast.Compare(left=node.args[0], ops=[ast.In()], comparators=[node.func.value])
+                c = evaluate(member, {}, val, quiet, 2)
+                if c is True:
+                    return ast.Subscript(value=node.func.value, slice=node.args[0], ctx=ast.Load())
+                if c is False:
+                    return node.args[1] if len(node.args) == 2 else ast.Constant(value=None)
+            return node
+
+    out = R().visit(copy.deepcopy(inl))
+    ast.fix_missing_locations(out)
+
+    # a sub-expression the valuation identifies: `is_invalid_value(e)` true -> e is the undefined marker
+    class K(ast.NodeTransformer):
+        def visit_Lambda(self, node):
+            return node
+
+        def generic_visit(self, node):
+            if isinstance(node, (ast.Call, ast.Subscript, ast.Attribute)) and isinstance(getattr(node, "ctx", ast.Load()), ast.Load):
+                t = unparse(node)
+                for probe, repl in ((f"is_invalid_value({t})", ast.Name(id="UNDEFINED_VALUE", ctx=ast.Load())),):
+                    hit = quiet.lookup(probe)
+                    if hit and hit[0] in val and (val[hit[0]] if hit[1] else not val[hit[0]]):
+                        return repl
+            return super().generic_visit(node)
+
+    if not (isinstance(out, ast.Call) and isinstance(out.func, ast.Name) and out.func.id == "is_invalid_value") and not isinstance(out, ast.Compare):
+        out = K().visit(out)
+        ast.fix_missing_locations(out)
+    return out if unparse(out) != before else None
+
+
+def canon_under(expr, env: dict, val: Dict[str, bool], atoms: Atoms) -> str:
+    """Canonical text of `expr` after partial evaluation under the valuation."""
+    red = simplify(expr, env, val, atoms)
+    return unparse(red) if red is not None else canon(expr, env)
 
 
 class TableResult:
